@@ -16,7 +16,7 @@ ALL = ["C07", "C08", "C09", "C11", "C12", "C13", "C15", "C16", "C17", "C18", "C1
 def main():
     prop, wt = sys.argv[1].upper(), sys.argv[2]
     keep = "--keep" in sys.argv
-    for i in (1, 2, 3):
+    for i in (1, 2, 3, 4, 5):
         patch = os.path.join(wt, "_out", "patch%d.diff" % i)
         if not os.path.exists(patch):
             print(prop, "rf%d" % i, "missing")
